@@ -30,7 +30,8 @@ void h_bufAdd1(void)
 	VREACH();
 }
 
-/* what happens below the writers' precondition: a captured buffer of < 2 bytes that is full */
+/* NOT a job (outside the call-site precondition argc >= 2): what happens on a full buffer of < 2 bytes --
+ * bufGrow(b, argc/2) grows by 0 and bufAdd1 stores one byte past the object.  Kept for hand runs. */
 void h_bufAdd1_tiny(void)
 {
 	INPUT(Length, argc); INPUT(Length, pos); V_INPUT_ARR(UByte, data, BUFCAP); INPUT(int, c);
